@@ -23,7 +23,7 @@ from dataclasses import dataclass, field
 DEFAULT_FLAGS = dict(
     n_kernels=3, split_files=False, mixed_decl=True, kw_actual=False, expr_actual=True, select_case=True,
     automatic_arrays=True, local_parameters=True, upper_case=False, kind_literals=True, entry_kernel=False,
-    module_parameters=True, max_stmts=5,
+    module_parameters=True, max_stmts=5, dup_pass=False,
 )
 
 NAMES = {'A': ['na', 'n1', 'klon', 'ia', 'nx'], 'B': ['nb', 'n2', 'klev', 'ib', 'ny'], 'F': ['kf', 'iflag', 'ksw', 'mode', 'kopt']}
@@ -279,6 +279,9 @@ class ParGen:
         for k in kernels:
             if k.extra_int:
                 k.extra_actual = rng.choice(['{A} + 1', '2', '2*{B}', '{A}*{B}', '{F} + 1'])
+                if f['dup_pass']:
+                    # hazard: the plain variable a second time (the same variable associated with two dummies)
+                    k.extra_actual = rng.choice(['{A}', '{B}', '{F}'])
                 need = [ro for ro in 'ABF' if '{' + ro + '}' in k.extra_actual]
                 if any(ro not in k.roles for ro in need):
                     # the callers are only known to have the roles the child itself receives
@@ -358,6 +361,8 @@ class ParGen:
         # kmod2 may depend on kmod or the other way round: order by dependency
         files = self.order_files(files)
         roles = {r.name: dict(r.roles) for r in kernels + [drv]}
+        if any(k.extra_int and k.extra_actual in ('{A}', '{B}', '{F}') for k in kernels):
+            self.features.add('hazard_same_variable_passed_twice')
         if f['upper_case']:
             self.features.add('upper_case_source')
         return ParCase(files, self.main_text(), [('pabort.F90', PABORT)], self.features, roles,
